@@ -9,6 +9,7 @@ Streams
               non_singlet_NLO(+-) / block,  c1dvcs.c1_F2 / c1_FL / c1_F1 / c1_V / shift1 / C1.
   prop.*      the property evaluated directly on the real code, no model: sum rules at n = 1, 2 (with the
               residual predicted by the Lean theorem), Schwarz reflection, affinity in nf, cusp limit.
+              and: one array object refilled / shifted / scaled in place between calls gives the values of its new contents.
   oracle.*    what no theorem carries: numerical Mellin moments of the x-space LO splitting functions,
               of the MSbar NLO F2 / FL coefficient functions and of the two-loop splitting functions
               (props/C03_kernels.py; double-precision Gauss-Legendre in t = -ln x, cross-checked against
@@ -103,6 +104,15 @@ def group_err(code, model):
     return worst, wi
 
 
+def in_domain_call(m):
+    """a recorded corr.* call lies inside the quantifier of the property: any moment drawn by gen_n, and for C1 / shift1
+    (extra = (rf2, process, scheme)) only scheme in {msbar, csbar} and process in {DIS, DVCS}"""
+    ex = m.get('extra')
+    if ex is None:
+        return True
+    return ex[2] in ('msbar', 'csbar') and ex[1] in ('DIS', 'DVCS')
+
+
 class Oracle:
     """the property itself on the real code, against x-space moments"""
 
@@ -168,7 +178,8 @@ def run(rep):
         sys.path.insert(0, os.path.join(common.VERIF, 'tools'))
         import gen_adim
         try:
-            gen_adim.main()
+            with common.lean_lock():          # the template is shared with concurrent runs of other checks
+                gen_adim.main()
         except gen_adim.Reject as e:
             gen_err = 'tools/gen_adim.py rejected the current source: %s' % e
     except Exception as e:  # noqa: BLE001
@@ -296,7 +307,23 @@ def run(rep):
                 extra=(rf2, pc, sc))
 
     # ---------------- model vs code ----------------
-    out = common.run_driver(lines)
+    try:
+        out = common.run_driver(lines)
+    except common.ModelUnavailable as ex:
+        # the model is regenerated from /repo on every run: a source change the generator accepts but Lean rejects lands
+        # here.  The correspondence is lost; the prop.* / oracle.* streams below evaluate the property on the real code
+        rep.coverage['model_unavailable'] = str(ex)[:500]
+        rep.violation('model-unavailable', 'the executable model of C03 could not be built (%s): the model-vs-code comparison '
+                      'did not run; the prop.* and oracle.* streams did' % str(ex)[:300], dict(detail=str(ex)[:1000]),
+                      found_input=False)
+        out = []
+        # what the corr.* streams recorded about the real code alone is still looked at: exceptions / shapes inside the domain
+        for m in meta:
+            impl = m['impl']
+            if isinstance(impl, str) and impl.startswith(('EXC', 'SHAPE')) and in_domain_call(m):
+                rep.violation('%s/%s' % (m['stream'], impl[:40]), 'the real code gives %s at n=%s nf=%s %s (inside the domain)' % (
+                    impl, m['n'], m['nf'], m.get('extra', '')), dict(kind=m['kind'], n=[m['n'].real, m['n'].imag], nf=m['nf'],
+                                                                      extra=str(m.get('extra', ''))), found_input=True)
     worst = {}
     for line, m, o in zip(lines, meta, out):
         impl = m['impl']
@@ -342,7 +369,12 @@ def run(rep):
                 bad = [(nm, v, ref) for nm, v, ref, e in orc.c1f(n, nf) if e > TOL_LO]
                 found, detail = bool(bad), 'x-space moments: %s' % (bad[:3],)
             elif isinstance(impl, str) and impl.startswith('EXC'):
-                found, detail = True, 'the real code raises %s on a moment inside the domain' % impl
+                if in_domain_call(m):
+                    found, detail = True, 'the real code raises %s on a moment inside the domain' % impl
+                else:
+                    # an unknown scheme / process name: which exception class the code raises there is not part of
+                    # the property (the model raises a bare Exception): a disagreement, no failing input
+                    detail = 'the real code raises %s for scheme/process %r outside the property\'s domain' % (impl, m.get('extra'))
         except Exception as e:  # noqa: BLE001
             detail = 'oracle failed: %r' % (e,)
         name = NAMES_ADIM[wi] if m['kind'] == 'adim' and wi < 11 else '%s[%d]' % (m['kind'], wi)
@@ -554,6 +586,92 @@ def run(rep):
                                   dict(kind='c1v', j=j, nf=nf, entry=nm, code=str(v[idx]), ref=ex), found_input=True)
     rep.coverage['max_dev_c1_V_quark_vs_conformal_moment'] = float('%.3g' % wv)
 
+    # ---------------- prop: ONE array object refilled / shifted / scaled in place between calls ----------------
+    # every function of the property is a function of the VALUES of its argument: after buf[:] = ..., buf += 1, buf *= c the
+    # same array object must give what a freshly built array of the new values gives (work buffers are what a caller
+    # integrating over several contours has).  The references are computed after the whole sequence, on fresh one-element arrays.
+    def _c1(sc, pc):
+        return lambda a, nf: c1dvcs.C1(types.SimpleNamespace(rf2=1.7, nf=nf, scheme=sc), a, pc)
+    # name -> (function of (array, nf), argument is j = n - 1, the axis of the result that runs over the moments)
+    rfun = {'singlet_LO': (lambda a, nf: adim.singlet_LO(a, nf), False, -1),
+            'non_singlet_LO': (lambda a, nf: adim.non_singlet_LO(a, nf), False, 0),
+            'singlet_NLO': (lambda a, nf: adim.singlet_NLO(a, nf), False, -1),
+            'non_singlet_NLO+': (lambda a, nf: adim.non_singlet_NLO(a, nf, 1), False, 0),
+            'non_singlet_NLO-': (lambda a, nf: adim.non_singlet_NLO(a, nf, -1), False, 0),
+            'block': (lambda a, nf: adim.block(a, nf), False, 0),
+            'c1_F2': (lambda a, nf: c1dvcs.c1_F2(a, nf), False, 0), 'c1_FL': (lambda a, nf: c1dvcs.c1_FL(a, nf), False, 0),
+            'c1_F1': (lambda a, nf: c1dvcs.c1_F1(a, nf), False, 0), 'c1_V': (lambda a, nf: c1dvcs.c1_V(a, nf), True, 0),
+            'C1/msbar/DVCS': (_c1('msbar', 'DVCS'), True, 0), 'C1/csbar/DVCS': (_c1('csbar', 'DVCS'), True, 0),
+            'C1/msbar/DIS': (_c1('msbar', 'DIS'), True, 0)}
+    rnames = sorted(rfun)
+    lo_kernel = {'non_singlet_LO': [(None, 'qq')], 'singlet_LO': [((0, 0), 'qq'), ((0, 1), 'qg'), ((1, 0), 'gq'), ((1, 1), 'gg')]}
+    wre = 0.0
+    for i in range(66 * mult):
+        k = rng.randint(1, 5)
+        nf = rng.randint(2, 6)
+        first = rnames[i % len(rnames)]
+        isj = rfun[first][1]
+        # later functions take the same kind of argument (n or j) as the first; mostly the same function again
+        same_kind = [nm for nm in rnames if rfun[nm][1] == isj]
+        seq = [first] + [first if rng.random() < 0.6 else rng.choice(same_kind) for _ in range(rng.choice([1, 1, 2]))]
+        buf = np.array([complex(rng.uniform(1.3, 13), rng.uniform(-15, 15)) for _ in range(k)]) - (1 if isj else 0)
+        steps, results = [], []
+        try:
+            for si, nm in enumerate(seq):
+                if si > 0:
+                    how = rng.choice(['refill', 'refill', 'add', 'scale', 'reverse'])
+                    fac = rng.uniform(1.1, 2.0)
+                    off = (1 if isj else 0)
+                    if (how == 'scale' and (max(buf.real + off) * fac > 30 or max(abs(buf.imag)) * fac > 40)) or \
+                            (how == 'add' and max(buf.real + off) > 28):
+                        how = 'refill'          # stay inside 1.05 <= Re n <= 30, |Im n| <= 40
+                    if how == 'refill':
+                        buf[:] = [gen_n(rng) - (1 if isj else 0) for _ in range(k)]
+                    elif how == 'add':
+                        buf += rng.choice([1, 2, 0.5])
+                    elif how == 'scale':
+                        buf *= fac
+                    else:
+                        buf[:] = buf[::-1].copy()
+                    steps.append(how)
+                contents = [complex(z) for z in buf]
+                res = np.array(rfun[nm][0](buf, nf), dtype=complex)      # a copy: later calls cannot scribble on it
+                results.append((nm, contents, res))
+        except Exception as e:  # noqa: BLE001
+            rep.violation('refilled/exception/' + type(e).__name__, 'sequence %s on one array (in-place steps %s) raised %r' % (seq, steps, e),
+                          dict(sequence=seq, steps=steps, nf=nf), found_input=True)
+            continue
+        rep.hist('refilled.steps', '+'.join(steps))
+        for si, (nm, contents, res) in enumerate(results):
+            f, _isj, ax = rfun[nm]
+            rep.case('prop.refilled', (nm, si, tuple(contents), nf), sample=dict(func=nm, call_number=si + 1, in_place_steps=steps[:si],
+                                                                              contents=[str(z) for z in contents], nf=nf))
+            bad = None
+            if res.shape[ax] != k:
+                bad = 'result shape %r for %d moments' % (res.shape, k)
+            for idx, z in enumerate(contents if bad is None else []):
+                ref = np.take(np.array(f(np.array([z]), nf), dtype=complex), 0, axis=ax)
+                got = np.take(res, idx, axis=ax)
+                e = float(np.max(np.abs(got - ref)) / max(float(np.max(np.abs(ref))), 1e-300))
+                wre = max(wre, e)
+                if not e <= TOL_EXACT:
+                    bad = 'element %d (%s = %s): %s in the array call, %s for a fresh array holding that value' % (
+                        idx, 'j' if _isj else 'n', z, str(np.ravel(got)[:4]), str(np.ravel(ref)[:4]))
+                    for pos, kn in lo_kernel.get(nm, []):
+                        mom = -2 * orc.K.moment_np(orc.K.lo_kernels(nf)[kn], z)
+                        gv = complex(got if pos is None else got[pos])
+                        bad += '; -2 x moment of the x-space %s kernel: %s (array call off by %.3g)' % (kn, mom, abs(gv - mom) / max(1.0, abs(mom)))
+                    break
+            if bad:
+                rep.violation('refilled/' + nm, '%s(array, nf=%d), call %d on ONE array object changed in place between the calls (%s; '
+                              'functions called: %s): %s' % (nm, nf, si + 1, ', '.join(steps[:si]) or 'first call', seq[:si + 1], bad),
+                              dict(kind='refilled', func=nm, nf=nf, sequence=seq[:si + 1], in_place_steps=steps[:si],
+                                   contents_per_call=[[[z.real, z.imag] for z in c_] for _n, c_, _r in results[:si + 1]],
+                                   reproduce='buf = np.array(contents_per_call[0]); f(buf, nf); buf[:] = contents_per_call[1]; f(buf, nf) '
+                                             'versus f(np.array(contents_per_call[1]), nf)'), found_input=True)
+                break
+    rep.coverage['max_dev_refilled_array_vs_fresh'] = float('%.3g' % wre)
+
     rep.coverage['max_dev_code_vs_xspace_moments'] = dict(LO=float('%.3g' % wl), c1_F2_FL=float('%.3g' % wc),
                                                           NLO_raw=float('%.3g' % wr), NLO_MellinF2_corrected=float('%.3g' % wk),
                                                           max_abs_MellinF2_fit_error=float('%.3g' % wd))
@@ -575,6 +693,8 @@ def run(rep):
         'NLO sum rules on the real code within %g absolute, and within 1e-9 of the residual the Lean theorems predict from the '
         'measured MellinF2 error' % TOL_SUM_NLO,
         'cusp: |(g(2n)-g(n))/ln2 / (4 C_R K) - 1| <= 4 ln n / n at n = 1e5, 1e6, 1e7',
+        'refilled arrays: element-wise agreement with a fresh one-element array holding the same value, within %g of the largest '
+        'entry (same arithmetic; observed 0)' % TOL_EXACT,
         'c1dvcs.C1 is called with array j only (as the library does); with a scalar j its einsum rejects the 0-d shift',
     ]
     rep.notes += [
